@@ -402,3 +402,48 @@ Lemma qt_example_ok :
 Proof.
   split; [apply qt_init_ok; apply nonneg_lit1; lra|]. split; [apply wet_lit1; lra | unfold eps; lra].
 Qed.
+
+(* ---- QueueTank.reinit (sixth round): a re-initialised plain queue tank is a state the timetable theorems apply to - nothing
+   declared, nothing arrived, nothing under way in any bucket, nothing admitted, the same capacity and built-in delay:
+   what is pushed afterwards arrives as into a fresh tank, whatever the tank had been used for *)
+Lemma qt_reinit_ok t : plain t -> 0 <= a_cap (l_a (qt_l t)) ->
+  qt_ok (qt_reinit t) /\ sto (qt_reinit t) = vzero /\ act (qt_reinit t) = vzero /\
+  (forall k c, cmp c (bucket (qt_reinit t) k) == 0) /\ cap (qt_reinit t) = cap t /\ delay (qt_reinit t) = delay t /\
+  a_fin (l_a (qt_l (qt_reinit t))) = 0.
+Proof.
+  intros Hp Hcap. unfold plain in Hp.
+  assert (E : l_reinit (qt_l t) =
+              mkAlt (a_end (l_a (qt_l t))) (l_n (qt_l t)) [vzero; vzero] vzero (l_qs (qt_l t)) [] vzero (l_T (qt_l t))).
+  { unfold l_reinit, l_end. rewrite Hp. reflexivity. }
+  assert (B : forall k c, cmp c (bget [vzero; vzero] k) == 0).
+  { intros k c. destruct k as [|[|k]]; cbn [bget nth]; try apply cmp_zero.
+    unfold bget. destruct k; cbn [nth]; apply cmp_zero. }
+  unfold qt_ok, plain, sto, act, cap, delay, bucket, qt_reinit. cbn [qt_s qt_l s_sto s_act s_cap]. rewrite E.
+  cbn [l_dec l_b l_a l_n a_end a_fin a_cap csum].
+  repeat split; try reflexivity.
+  - intros c _. apply B.
+  - intros c _. rewrite !cmp_zero. ring.
+  - apply nonneg_zero.
+  - intros k. destruct k as [|[|k]]; cbn [bget nth]; try apply nonneg_zero.
+    unfold bget. destruct k; cbn [nth]; apply nonneg_zero.
+  - lra.
+  - exact Hcap.
+  - intros k c. apply B.
+Qed.
+
+(* ... so the first push after a reinit arrives exactly when it is due, whatever the tank went through before *)
+Theorem qt_reinit_then_push t v time T : plain t -> 0 <= a_cap (l_a (qt_l t)) -> wet v -> eps <= vol v ->
+  let t0 := qt_reinit t in
+  let entered c := cmp c v - cmp c (snd (qt_push t0 v time false)) in
+  forall c, conserved c -> forall m,
+    cmp c (act (ends m (fst (qt_push t0 v time false)) T)) == (if Nat.leb (time + delay t) m then entered c else 0).
+Proof.
+  intros Hp Hcap Hw Hbig t0 entered c Hc m.
+  destruct (qt_reinit_ok t Hp Hcap) as (Hok & _ & Hact & Hb & _ & Hd & _). fold t0 in Hok, Hact, Hb, Hd.
+  destruct (qt_impulse t0 v time T Hok Hw Hbig c Hc m) as (HA & _).
+  destruct (qt_ends_spec m t0 T Hok) as (_ & HE & _).
+  assert (Hz : psum (fun i => cmp c (bucket t0 (S i))) m == 0).
+  { clear HA HE. induction m as [|m IH]; cbn [psum]; [reflexivity|]. rewrite IH, Hb. ring. }
+  rewrite (HE c Hc), Hact, cmp_zero, Hz in HA. rewrite Hd in HA. unfold entered. 
+  destruct (Nat.leb (time + delay t) m); lra.
+Qed.
